@@ -12,7 +12,16 @@ from ..report import Ctx
 from ..pattern import body_is, find, find_expr, has, has_expr
 
 
+#: obligations whose failure contradicts the property (rule, construct pattern, why); every other failure is 'not recognised'
+POSITIVE: list[tuple[str, str, str]] = [
+    ('C09.R2', r'^calculator:rebuild$', 'dominance: the individual map is handed to the engine on a path without a rebuild'),
+    ('C09.R2', r'^BIOGEME\.\w+:rebuild$', 'dominance: the engine uses the panel map on a path without a rebuild'),
+    ('C09.R4', r':record$', 'the record of the trajectory operator is not the one the engine parses'),
+]
+
+
 def run(ctx: Ctx) -> None:
+    ctx.positive_table = list(POSITIVE)
     prog = ctx.prog
     ctx.rule('C09.R1', 'Database.panel refuses non-contiguous individuals before the map is built; build_panel_map sorts by the panel column, renumbers the row '
              'index 0..n-1 and stores for each individual [first, last] position of its rows in that renumbered index')
@@ -57,7 +66,25 @@ for _I in _INDS:
     _M[_I] = [min(_IDX), max(_IDX)]
 self.individualMap = pd.DataFrame(_M).T
 """)
-    ctx.add('C09.R1', 'Database.build_panel_map:order', ok, b, 'sort, then renumber the index, then build the map' if ok else f'build_panel_map starts with {steps[:2]}', str(steps[:2]))
+    why = None
+    if not ok:
+        cb = cfg_of(b.node)
+        # (a) the rebuild is skipped in some states of the object
+        if guard is not None and isinstance(guard.test, ast.BoolOp) and isinstance(guard.test.op, ast.And) and any(unparse(v) == 'self.panelColumn is not None' for v in guard.test.values):
+            extra = [unparse(v) for v in guard.test.values if unparse(v) != 'self.panelColumn is not None']
+            why = f'the map is rebuilt only when `{" and ".join(extra)}`: after the rows have changed (remove, a second panel declaration) the engine receives a map that describes another table'
+        # (b) the sorted table is kept in a local: self.data, which the engine reads, is not the table the map describes
+        loc = [n for n in walk_no_nested(b.node) if isinstance(n, ast.Assign) and isinstance(n.targets[0], ast.Name) and isinstance(n.value, ast.Call) and call_name(n.value) == 'sort_values' and unparse(n.value.func.value) == 'self.data']
+        stores = [n for n in walk_no_nested(b.node) if isinstance(n, ast.Assign) and unparse(n.targets[0]) == 'self.data']
+        if why is None and loc and not stores:
+            why = f'the sorted table is kept in the local {loc[0].targets[0].id} and self.data is left as it was: the map gives row positions of the sorted table while the engine reads self.data'
+        # (c) sorting / renumbering does not happen on every path to the construction of the map
+        ren = [n for n in walk_no_nested(b.node) if isinstance(n, ast.Assign) and unparse(n.targets[0]) == 'self.data.index']
+        build = [n for n in walk_no_nested(b.node) if isinstance(n, ast.Assign) and unparse(n.targets[0]) == 'self.individualMap']
+        if why is None and ren and stores and build and guard is not None and unparse(guard.test) == 'self.panelColumn is not None':
+            if not all(cb.dominates(cb.node_of(x), cb.node_of(build[0])) for x in ren + stores[:1]):
+                why = 'sorting and renumbering of self.data are skipped on some paths to the construction of the map: a table that is in order but whose index has gaps (rows removed) is then mapped by row labels, not by positions'
+    ctx.add('C09.R1', 'Database.build_panel_map:order', ok if (ok or why) else None, b, 'sort, then renumber the index, then build the map' if ok else (why or f'the beginning of build_panel_map is not in the expected form: {steps[:2]}'), str(steps[:2]), positive=bool(why))
     ctx.add('C09.R1', 'Database.build_panel_map:rows', okm, b, 'each individual is mapped to [first, last] position of its rows' if okm else 'the map rows are no longer [min, max] of the positions of the rows of the individual', 'rows')
     cg = prog.func('tools.database', 'count_number_of_groups')
     ok = has(cg.node, "df['_bio_groups'] = pd.Series(df[column] != df[column].shift(1)).cumsum()\n_R = len(df['_bio_groups'].unique())\n___\nreturn _R")
